@@ -423,7 +423,7 @@ func (r *importSet) TypeName(pk WorkingPackage, tpe types.Type) string {
 			%s
 		}`, strings.Join(fields, "\n"))
 	case *types.Interface:
-		if realtp.NumMethods() == 0 {
+		if realtp.NumMethods() == 0 && realtp.NumEmbeddeds() == 0 {
 			return "any"
 		}
 		embeded := iterate(realtp.NumEmbeddeds(), realtp.EmbeddedType, func(idx int, v types.Type) string {
